@@ -374,6 +374,54 @@ def corpus_item(rsmi):
     return acc.result()
 
 
+def size_ladder():
+    """fully atom-mapped strings with map counts around typical shortcut thresholds"""
+    out = []
+    for n in (1, 2, 3, 9, 10, 11, 63, 64, 65, 99, 100, 101, 127, 128, 129, 255, 256, 257, 300, 511, 512, 513, 999, 1000, 1001):
+        out.append("".join("[CH3:{}]".format(k) if k in (1, n) and n > 1 else ("[CH4:1]" if n == 1 else "[CH2:{}]".format(k))
+                           for k in range(1, n + 1)))
+        out.append(".".join("[OH2:{}]".format(k) for k in range(1, n + 1)))
+        out.append("".join("[CH2:{}][CH2:{}][O:{}]".format(3 * k + 1, 3 * k + 2, 3 * k + 3) for k in range(n)) + "[CH3:{}]".format(3 * n + 1)
+                   + ">>" + "[OH2:{}]".format(3 * n + 2))
+    return out
+
+
+PIPE_ROWS = {
+    "U": "CCO>>CC=O",                                                           # unmapped, no bracket atom
+    "M": "[CH3:1][CH2:2][OH:3]>>[CH3:1][CH:2]=[O:3]",                           # mapped
+    "B": "CC(=O)[O-].[Na+]>>CC(=O)O",                                           # unmapped, bracket atoms
+    "E": "[CH3:1][C:2](=[O:3])[O:4][CH2:5][CH3:6]>>[CH3:1][C:2](=[O:3])[OH:4]",  # mapped, MCS path
+}
+
+
+def pipeline_item(job):
+    """rebalance outputs never carry atom maps, whatever the batch looks like"""
+    import itertools as _it
+    import re as _re
+
+    from mc import pipeline
+
+    seq, bs = job
+    rxns = [PIPE_ROWS[k] for k in seq]
+    out = pipeline.run({"rxns": rxns, "batch_size": bs})
+    bad = []
+    rows = out["rows"] or []
+    if len(rows) != len(rxns):
+        return {"n": 1, "bad": [{"key": ["pipeline", "row-count"], "what": "{} rows for batch {}".format(len(rows), seq)}]}
+    for i, (rx, row) in enumerate(zip(rxns, rows)):
+        for col in ("reaction", "input_reaction"):
+            v = row.get(col) or ""
+            if _re.search(r"\[[^\]]*:\d+\]", v):
+                bad.append({"key": ["pipeline", "map-survives", col],
+                            "what": "row {} of batch {} (batch_size={}): column {} still carries atom maps: {}".format(i, list(seq), bs, col, v[:120])})
+        want = [oracle.mols(s) for s in rx.split(">>")]
+        got = [oracle.mols(s) for s in (row.get("input_reaction") or ">>").split(">>")]
+        if got != want:
+            bad.append({"key": ["pipeline", "input-changed"],
+                        "what": "row {} of batch {}: input_reaction {} is not the input with its maps cleared".format(i, list(seq), row.get("input_reaction"))})
+    return {"n": len(rxns), "bad": bad}
+
+
 # --------------------------------------------------------------------------- driver
 
 
@@ -422,6 +470,16 @@ def run(tier, seed):
                 rsmis.append(v)
     rsmis = sorted(set(rsmis), key=lambda s: (len(s), s))
     family("corpus", "checks.c15:corpus_item", rsmis, 100)
+    family("size-ladder", "checks.c15:corpus_item", size_ladder(), 5)
+    import itertools as _it
+
+    pjobs = [(seq, bs) for n in (1, 2, 3) for seq in _it.product(sorted(PIPE_ROWS), repeat=n) for bs in (None, 1, 2)
+             if not (bs == 2 and n < 3) or n >= 2]
+    pres = pmap("checks.c15:pipeline_item", pjobs, chunk=4, seed=seed, timeout=7200)
+    pipe_bad = {}
+    for job, r in zip(pjobs, pres):
+        for b in r["bad"]:
+            pipe_bad.setdefault(repr(b["key"]), []).append((job, b))
 
     all_groups = {}
     for name in sorted(families):
@@ -443,8 +501,13 @@ def run(tier, seed):
                               {"output_molecule": e["out"], "canonical": e.get("got")},
                               {"canonical": e.get("want")}, g["key"], _what(k, g, e)))
 
+    for k in sorted(pipe_bad):
+        for job, b in pipe_bad[k][:3]:
+            res.add(Violation("pipeline", {"seq": list(job[0]), "bs": job[1]}, None, None, b["key"], b["what"]))
+
     tot = {k: sum(f.get(k, 0) for f in families.values())
            for k in ("cases", "valid_strings", "molecules", "forms_changed", "forms_valid")}
+    tot["cases"] += sum(r["n"] for r in pres)
     res.coverage = {
         "evaluations": tot["cases"],
         "distinct_nontrivial": tot["forms_changed"],
@@ -453,7 +516,8 @@ def run(tier, seed):
                 "{{none,@,@@{}}} x H {{none,H..H6}} x charge {{0,+-1,+-2,+-3}} x map {} in {} "
                 "bonding environments; {} aromatic symbols x H x charge x map in {} ring "
                 "environments; explicit-bond/explicit-H writings rooted at every atom of {} "
-                "molecules; {} distinct corpus reaction strings). Only molecules RDKit parses "
+                "molecules; {} distinct corpus reaction strings; a size ladder of fully mapped strings with 1..1001 map "
+                "numbers; rebalance batches of mapped/unmapped rows). Only molecules RDKit parses "
                 "without radical electrons are judged (valid_strings / molecules). "
                 "distinct_nontrivial = distinct closed-shell bracket forms (resp. syntax "
                 "spellings, corpus reactions) whose text remove_atom_mapping actually "
@@ -478,13 +542,16 @@ def run(tier, seed):
     res.assumptions = [
         "RDKit's parser, valence model (closed-shell = no radical electron) and canonical "
         "SMILES (isomeric, taken to its re-read fixpoint) decide molecule identity",
-        "the clause 'rebalancing outputs never contain atom-map numbers' is observed by the "
-        "pipeline checks (C01 family), not here",
+        "the clause 'rebalancing outputs never contain atom-map numbers' is checked on every ordered batch of "
+        "1..3 rows over {unmapped, mapped, unmapped with bracket atoms, mapped MCS-path} x batch sizes",
     ]
     return res
 
 
 def replay(v):
+    if v.sub == "pipeline":
+        r = pipeline_item((tuple(v.case["seq"]), v.case["bs"]))
+        return [Violation(v.sub, v.case, None, None, b["key"], b["what"]) for b in r["bad"] if b["key"] == v.key][:1]
     n, fails = check_string(v.case)
     out = []
     for f in fails:
